@@ -113,6 +113,11 @@ def judge(cfg, events, results, props=None):
         # C07 ("a firmware-style reading of a synthesised command yields exactly the intended
         # values"): a position / extruder / deferred-content mismatch in a step whose output
         # contains synthesised commands is also a C07 violation
+        # C14 ("a disable that arrives mid-episode closes the episode at once with the same
+        # re-synchronisation obligations as leaving a region"): position, extruder coordinate and
+        # retraction obligations after such a disable are C14's too
+        if "C14" in props and p in ("C03", "C04", "C05") and cur.get("disable_closed"):
+            out.append(("C14", i, "after a disable closed an episode: %s" % msg))
         if "C07" in props and p in ("C03", "C04", "C06") and cur["syn"]:
             out.append(("C07", i, "reading the synthesised commands %r does not give the intended values: %s"
                         % (cur["syn"], msg)))
@@ -196,15 +201,16 @@ def judge(cfg, events, results, props=None):
             if code in ext and was_episode and episode:
                 deferred_seen.append(ev[1])
         elif ev[0] == "at":
-            if res[0] == "at" and res[1] and not (len(ev) > 3 and ev[3]):
-                act = _at_action(cfg, ev[1], ev[2])
-                if act == "disable_exclusion":
-                    if enabled and episode:
-                        closes_by_disable = True
-                        episode = False
-                    enabled = False
-                elif act == "enable_exclusion":
-                    enabled = True
+            if not (len(ev) > 3 and ev[3]):           # not while streaming to SD
+                for act in _at_actions(cfg, ev[1], ev[2]):
+                    if act == "disable_exclusion":
+                        if enabled and episode:
+                            closes_by_disable = True
+                            cur["disable_closed"] = True
+                            episode = False
+                        enabled = False
+                    elif act == "enable_exclusion":
+                        enabled = True
 
         # ---- execute what reaches the printer
         z_at_xy = None
@@ -341,12 +347,13 @@ def _differs(a, b):
     return False
 
 
-def _at_action(cfg, cmd, params):
+def _at_actions(cfg, cmd, params):
+    """the configured actions an @-command triggers, in configuration order (decided here, not by
+    asking the implementation): the pattern must match at the start of the parameter text, a missing
+    parameter text is the empty string"""
     import re
-    for (c, p, a) in cfg.get("at", impl.DEFAULT_AT):
-        if c == cmd and (p is None or re.match(p, params or "")):
-            return a
-    return None
+    return [a for (c, p, a) in cfg.get("at", impl.DEFAULT_AT)
+            if c == cmd and (p is None or re.match(p, params or ""))]
 
 
 PLAIN = "0123456789"
